@@ -22,19 +22,31 @@ Theorem C12_noninterference : forall h : history,
 Proof. exact noninterference_current. Qed.
 Print Assumptions C12_noninterference.
 
-(* the key directory: at every creation of a file inside it, it has been chown'ed to root:root and
-   chmod'ed to 0o700 and nothing has undone that (mkdir resets; restarts redo chown + chmod); [predir]:
-   the directory already existed, mode 0o755 and not chown'ed, when the agent first started *)
+(* the key directory.  [predir]: the directory already existed, mode 0o755 and not chown'ed, when the agent
+   first started; [co]: the environment lets chown(key dir, root, root) succeed (it does not for an agent
+   without CAP_CHOWN on somebody else's directory; acl_directory then logs and still sets the mode). *)
+
+(* in EVERY environment the mode is 0o700 at every creation of a file inside the key directory (mkdir resets
+   it; restarts redo the chmod; nothing else touches it) *)
+Theorem C12_dir_mode_restricted_at_create :
+  forall (v : variant) (predir co : bool) (h : history) (pre : list sys) (c : fileclass) (post : list sys),
+  sys_trace v predir co h = pre ++ Create c :: post -> mode_restricted (dir_after predir pre) = true.
+Proof. exact dir_mode_restricted_at_create. Qed.
+Print Assumptions C12_dir_mode_restricted_at_create.
+
+(* where chown can succeed the directory is root:root AND 0o700 at every such creation *)
 Theorem C12_dir_restricted_at_create :
   forall (v : variant) (predir : bool) (h : history) (pre : list sys) (c : fileclass) (post : list sys),
-  sys_trace v predir h = pre ++ Create c :: post -> restricted (dir_after predir pre) = true.
+  sys_trace v predir true h = pre ++ Create c :: post -> restricted (dir_after predir pre) = true.
 Proof. exact dir_restricted_at_create. Qed.
 Print Assumptions C12_dir_restricted_at_create.
 
-(* DESIGN form: chown root:root and chmod 0o700 (= 448) precede the first creation in the key directory *)
+(* DESIGN form: the chmod 0o700 (= 448) precedes the first creation in the key directory, in every
+   environment; so does the chown root:root wherever it can succeed *)
 Theorem C12_dir_restricted_first :
-  forall (v : variant) (predir : bool) (h : history) (pre : list sys) (c : fileclass) (post : list sys),
-  sys_trace v predir h = pre ++ Create c :: post -> In (Chmod 448) pre /\ In (Chown 0 0) pre.
+  forall (v : variant) (predir co : bool) (h : history) (pre : list sys) (c : fileclass) (post : list sys),
+  sys_trace v predir co h = pre ++ Create c :: post ->
+  In (Chmod 448) pre /\ (co = true -> In (Chown 0 0) pre).
 Proof. exact dir_restricted_first. Qed.
 Print Assumptions C12_dir_restricted_first.
 
@@ -107,10 +119,12 @@ Example C12_nonvacuous :
                        Poll (SOk false (Some 2%N) 1) KErr AOk; Restart; Poll (SOk true (Some 2%N) 1) KErr AOk; ClientRequest;
                        StatusTick; ProvisionQuery true; ProvisionTimeup])
     = [(KeyFile, [1%N; 2%N])]
-  /\ map sys_code (sys_trace unfixed false [Poll (SOk true None 1) (KOk 1 true) AOk; ProvisionTimeup; Restart; Poll (SOk true None 1) (KOk 2 true) AOk])
+  /\ map sys_code (sys_trace unfixed false true [Poll (SOk true None 1) (KOk 1 true) AOk; ProvisionTimeup; Restart; Poll (SOk true None 1) (KOk 2 true) AOk])
     = [(0, 0); (1, 0); (2, 448); (3, 0); (3, 1); (3, 1); (1, 0); (2, 448); (3, 0)]%N
-  /\ map sys_code (sys_trace unfixed true [Poll (SOk true None 1) (KOk 1 true) AOk])
+  /\ map sys_code (sys_trace unfixed true true [Poll (SOk true None 1) (KOk 1 true) AOk])
     = [(1, 0); (2, 448); (3, 0)]%N
+  /\ map sys_code (sys_trace current true false [Poll (SOk true None 1) (KOk 1 true) AOk])
+    = [(2, 448); (3, 0)]%N
   /\ vector (run repaired witness_not_hex) = []
   /\ vector (run repaired witness_body_malformed) = [].
 Proof. exact nonvacuous_examples. Qed.
